@@ -29,7 +29,7 @@ theorem typed_specHist : ∀ (sts : List Sql.Stmt) (sdb : Spec.SDB), Spec.Typed 
 a change: `HistOK`), a SELECT of a parser-produced shape on user tables never panics. -/
 theorem history_select_never_panics (sts : List Sql.Stmt) (hok : HistOK [] sts newDB []) :
     ∃ db', runHist [] newDB sts = some db' ∧ ∀ q : Select,
-      ((∃ a, q.list = [⟨.star, a⟩]) ∨ isStar q.list = false) → UserTables q →
+      (Exec.NoPanicP.ParsedShape q) → UserTables q →
       (∀ n ∈ selectNames q, FetchTotal db' n) ∧ ∀ s, evaluateSelect (fetchOf db') q ≠ .panic s := by
   obtain ⟨db', pt', sch', tbls', hrun, hrel⟩ := from_create_database_history sts hok
   refine ⟨db', hrun, fun q hq hn => ?_⟩
@@ -43,7 +43,7 @@ open Mkdb.Engine Mkdb.Store Mkdb.Sql Mkdb.Exec
 
 /-- in a session that satisfies the invariant, a SELECT on user tables never panics on any database -/
 theorem sessInv_select_never_panics {s : Sess} (h : SessInv s) : ∀ p ∈ s.dbs, ∀ q : Select,
-    ((∃ a, q.list = [⟨.star, a⟩]) ∨ isStar q.list = false) → UserTables q →
+    (Exec.NoPanicP.ParsedShape q) → UserTables q →
     (∀ n ∈ selectNames q, FetchTotal p.2 n) ∧ ∀ x, evaluateSelect (fetchOf p.2) q ≠ .panic x := by
   obtain ⟨w, hw⟩ := h
   intro p hp q hq hn
@@ -56,7 +56,7 @@ error value; `SessOK`: the side conditions of the statement-level theorems), a S
 parser-produced shape on user tables never panics - on any database of the session. -/
 theorem session_select_never_panics (sts : List Sql.Stmt) (hok : SessOK {} sts) :
     ∀ p ∈ (runAll {} sts).1.dbs, ∀ q : Select,
-      ((∃ a, q.list = [⟨.star, a⟩]) ∨ isStar q.list = false) → UserTables q →
+      (Exec.NoPanicP.ParsedShape q) → UserTables q →
       (∀ n ∈ selectNames q, FetchTotal p.2 n) ∧ ∀ x, evaluateSelect (fetchOf p.2) q ≠ .panic x :=
   sessInv_select_never_panics (runAll_sessAbs sts {} (fun _ => []) (sessAbs_empty _) hok).1
 
@@ -81,10 +81,10 @@ def exJoinQuery : Select :=
       (.pred ⟨.col ⟨[120], [97]⟩, Generated.t_LT, .col ⟨[121], [97]⟩⟩)),
     orderBy := [⟨⟨[121], [97]⟩, true⟩] }
 
-theorem exQueries_ok : ((∃ a, exGroupQuery.list = [⟨.star, a⟩]) ∨ isStar exGroupQuery.list = false) ∧
+theorem exQueries_ok : (Exec.NoPanicP.ParsedShape exGroupQuery) ∧
     UserTables exGroupQuery ∧
-    ((∃ a, exJoinQuery.list = [⟨.star, a⟩]) ∨ isStar exJoinQuery.list = false) ∧ UserTables exJoinQuery :=
-  ⟨.inr rfl, by decide +kernel, .inl ⟨[], rfl⟩, by decide +kernel⟩
+    (Exec.NoPanicP.ParsedShape exJoinQuery) ∧ UserTables exJoinQuery :=
+  ⟨by decide, by decide +kernel, by decide, by decide +kernel⟩
 
 /-- the result of a query as a Boolean test (the result type has no decidable equality) -/
 def selectGives (r : Exec.X (List Row × List Field)) (rows : List Row) (hdr : List Field) : Bool :=
